@@ -1,7 +1,7 @@
 ------------------------------ MODULE MC_C19 ------------------------------
 (***************************************************************************)
 (* C19: the configuration space of the command line tool is finite; TLC    *)
-(* enumerates it (complete product in the thorough tier: 607 500           *)
+(* enumerates it (complete product in the thorough tier: 1 259 712         *)
 (* configurations; in the quick tier the two sub-products area x k_exp and *)
 (* location x RED1 x RED2 completely, the other half chosen by a covering  *)
 (* function) and checks on spec/Cli.tla that the resolution is well formed *)
@@ -15,17 +15,17 @@ CONSTANT Tier
 VARIABLES ph, cfg
 vars == <<ph, cfg>>
 
-S5 == <<"absent", "valid", "edge", "range", "text">>
+S5 == <<"absent", "valid", "edge", "range", "text", "fine">>
 S3 == <<"absent", "valid", "text">>
 LO == <<"absent", "PENINSULA">>
 LM == <<"absent", "CANARIAS", "MARTE">>
 
 Init == ph = 0 /\ cfg = <<>>
-H1(a, b, c, d) == a + 5 * b + 25 * c + 125 * d
+H1(a, b, c, d) == a + 6 * b + 36 * c + 216 * d
 \* first the area / k_exp quadruple, then the rest
 PickA ==
   /\ ph = 0 /\ ph' = 1
-  /\ \E a \in 1..5, am \in 1..5, k \in 1..5, km \in 1..5 :
+  /\ \E a \in 1..6, am \in 1..6, k \in 1..6, km \in 1..6 :
        cfg' = [aopt |-> S5[a], ameta |-> S5[am], kopt |-> S5[k], kmeta |-> S5[km], h |-> H1(a, am, k, km)]
 PickB ==
   /\ ph = 1 /\ ph' = 2
@@ -53,7 +53,7 @@ WellFormed ==
                /\ o.exit \in {0, 1, 64, 65}
                /\ (o.exit = 0 =>
                      /\ (Present(cfg.aopt) => o.area.origin = "usuario")
-                     /\ (~Present(cfg.aopt) /\ Present(cfg.ameta) => o.area.origin = "metadatos" /\ o.area.milli = 4750)
+                     /\ (~Present(cfg.aopt) /\ Present(cfg.ameta) => o.area.origin = "metadatos" /\ o.area.milli = AreaMilli("meta", cfg.ameta))
                      /\ (~Present(cfg.aopt) /\ ~Present(cfg.ameta) => o.area.origin = "predefinido" /\ o.area.milli = 1000)
                      /\ o.area.milli > 1 /\ o.kexp.milli >= 0 /\ o.kexp.milli <= 1000
                      /\ (cfg.ffile => o.fp.origin = "archivo")
